@@ -176,8 +176,13 @@ def main(mod, argv):
     res.cov["samples"] = samples + [{"theorem": t, "module": m} for m, ts in thms.items() for t in ts][:12]
 
     shown = 0
+    seen_kinds = set()
+    res.cov["violations_total"] = len(real)
     for (p, meta, f) in real:
-        if shown >= 5: break
+        kind = (meta.get("family", "?"), "".join(ch for ch in f.text[:60] if not ch.isdigit()))
+        if kind in seen_kinds: continue
+        seen_kinds.add(kind)
+        if shown >= 8: break
         shown += 1
         rp = C.save_replay(prop, p, dict(property=prop, kind="failing-input", seed=seed, tier=tier,
                                          family=meta.get("family", "?"), what=f.text[:300], meta=meta))
